@@ -274,6 +274,11 @@ def exec_ops(case, ops, op_timeout=60, emit=None):
                     rec["status"] = "returned"
                     rec["count"] = len(exps)
                     rec["exps"] = [ir.encode_experiment(case, e) for e in exps]
+                    if case.get("continuous"):
+                        rec["cont"] = [{cd["name"]: [ir._enc_num(x) for x in e.get(cd["name"], [])] for cd in case["continuous"]
+                                        if cd["name"] in e} for e in exps]
+                        rec["cont_log"] = list(built.cont_log)
+                        del built.cont_log[:]
                     rec["keys"] = [[str(k) for k in e.keys()] for e in exps[:1]]
                     rec["printed_error"] = ("WARNING" not in buf.getvalue()) and any(
                         s in buf.getvalue() for s in ("unsatisfiable", "No level in", "No matches", "not satisfiable"))
